@@ -1,15 +1,26 @@
 #!/bin/bash
-# usage: tools/seedtest.sh <ID> <seeded dir> [tier]   -- apply the patch to /repo, run the check, undo.
+# usage: tools/seedtest.sh <ID> <seeded dir> [tier]
+# Applies the patch in a scratch worktree of /repo (/var/tmp/wt-seed, at /repo's HEAD), runs the check against that
+# tree (VERIF_REPO) from a scratch copy of /verif (/var/tmp/verif-seed), and undoes it: neither /repo nor /verif is
+# touched, so other checks can run at the same time.
 # prints CAUGHT / MISSED and appends the outcome to <seeded dir>/result.txt
 set -u
 id=$1; dir=$2; tier=${3:-quick}
-cd /repo || exit 2
-if [ -n "$(git status --porcelain --untracked-files=no)" ]; then echo "/repo not clean"; exit 2; fi
+W=/var/tmp/wt-seed
+head=$(git -C /repo rev-parse HEAD)
+if [ ! -d "$W" ]; then git -C /repo worktree add -q --detach "$W" "$head" || exit 2; fi
+cd "$W" || exit 2
+git checkout -q -- . && git checkout -q --detach "$head" || exit 2
 git apply "$dir/patch.diff" || { echo "patch does not apply"; exit 2; }
 out=$(mktemp)
-( cd /verif && ./check "$id" --tier "$tier" ) > "$out" 2>&1
+# a scratch copy of /verif too: regenerated coq/gen files, evidence and replays of the seeded run stay out of /verif
+V=/var/tmp/verif-seed
+mkdir -p "$V"
+rsync -a --delete --exclude .git --exclude replays --exclude evidence --exclude seeded /verif/ "$V"/
+mkdir -p "$V/evidence" "$V/replays"
+( cd "$V" && VERIF_REPO="$W" ./check "$id" --tier "$tier" ) > "$out" 2>&1
 rc=$?
-git -C /repo checkout -- .
+git -C "$W" checkout -q -- .
 n=$(grep -c '^VIOLATION' "$out")
 if [ $rc -ne 0 ] && [ "$n" -gt 0 ]; then verdict=CAUGHT; else verdict=MISSED; fi
 echo "$verdict id=$id tier=$tier rc=$rc violations=$n first: $(grep -A1 '^VIOLATION' "$out" | grep '^  ->' | head -1 | cut -c1-220)"
